@@ -29,7 +29,16 @@ Boundary == { <<>>, One, <<1>> \o Zeros(18), MAXD, SubD(MAXD, One),
                 3,4,9,9,2,3,3,2,8,2,0,2,8,2,0,1,9,7,2,8,7,9,2,0,0,3,9,5,6,5,6,4,8,1,9,9,6,7>>,  \* 2^255 - 1
               <<5,7,8,9,6,0,4,4,6,1,8,6,5,8,0,9,7,7,1,1,7,8,5,4,9,2,5,0,4,3,4,3,9,5,3,9,2,6,6,
                 3,4,9,9,2,3,3,2,8,2,0,2,8,2,0,1,9,7,2,8,7,9,2,0,0,3,9,5,6,5,6,4,8,1,9,9,6,8>>,  \* 2^255
-              <<1,8,4,4,6,7,4,4,0,7,3,7,0,9,5,5,1,6,1,5>> }                                       \* 2^64 - 1
+              <<1,8,4,4,6,7,4,4,0,7,3,7,0,9,5,5,1,6,1,5>>,                                        \* 2^64 - 1
+              \* the machine-word boundaries inside the 256-bit range (a carry has to cross them):
+              \* 2^64, 2^127, 2^128 - 1, 2^128, 2^128 + 1, 2^192 - 1, 2^192
+              <<1,8,4,4,6,7,4,4,0,7,3,7,0,9,5,5,1,6,1,6>>,
+              <<1,7,0,1,4,1,1,8,3,4,6,0,4,6,9,2,3,1,7,3,1,6,8,7,3,0,3,7,1,5,8,8,4,1,0,5,7,2,8>>,
+              <<3,4,0,2,8,2,3,6,6,9,2,0,9,3,8,4,6,3,4,6,3,3,7,4,6,0,7,4,3,1,7,6,8,2,1,1,4,5,5>>,
+              <<3,4,0,2,8,2,3,6,6,9,2,0,9,3,8,4,6,3,4,6,3,3,7,4,6,0,7,4,3,1,7,6,8,2,1,1,4,5,6>>,
+              <<3,4,0,2,8,2,3,6,6,9,2,0,9,3,8,4,6,3,4,6,3,3,7,4,6,0,7,4,3,1,7,6,8,2,1,1,4,5,7>>,
+              <<6,2,7,7,1,0,1,7,3,5,3,8,6,6,8,0,7,6,3,8,3,5,7,8,9,4,2,3,2,0,7,6,6,6,4,1,6,1,0,2,3,5,5,4,4,4,4,6,4,0,3,4,5,1,2,8,9,5>>,
+              <<6,2,7,7,1,0,1,7,3,5,3,8,6,6,8,0,7,6,3,8,3,5,7,8,9,4,2,3,2,0,7,6,6,6,4,1,6,1,0,2,3,5,5,4,4,4,4,6,4,0,3,4,5,1,2,8,9,6>> }
 Pairs == Boundary \X Boundary
 
 Cases == {[kind |-> "str", s |-> s] : s \in Strings}
